@@ -200,7 +200,11 @@ def conv_pestle(pid, cfg, m, failure):
         else:
             special[m['id_vol0']] = 'volFrac'
     names = _names(nf, special)
-    ref = Ref('k', 3, names, dom, [boxes], layout=[[(0, 0), (0, 1)]])
+    if cfg.get('masked'):
+        # the masked worker runs on levels below the finest: put one fine box over the first coarse cell
+        ref = Ref('k', 3, names, dom, [boxes, [((0, 0, 0), (1, 1, 1))]], layout=[[(0, 0), (0, 1)], [(0, 0)]])
+    else:
+        ref = Ref('k', 3, names, dom, [boxes], layout=[[(0, 0), (0, 1)]])
     v = {'signature': '%s/K-pestle-seek' % pid, 'what': failure['what'], 'args': [names[m['id_int0']], None, cfg['use_vol'], 'reader'], 'model': None}
     return c09.make_replay(ref, v)
 
